@@ -343,6 +343,43 @@ def cover(name):
     return {"steps": COVER[name], "nw": 1, "name": "cover-" + name}
 
 
+def realised(name, ev):
+    """Did the real execution go through the schedule the coverage scenario is about? (steering is best
+    effort on a loaded machine; an unrealised scenario is run again, it is never a verdict)"""
+    def idx(pred):
+        return [i for i, e in enumerate(ev) if pred(e)]
+    bpfail = idx(lambda e: e["e"] == "bp" and not e["ok"])
+    flush = idx(lambda e: e["e"] == "cs" and e["op"] == "flush")
+    if name == "BatchFail":
+        return any(ev[i]["k"] == "batch" and len(ev[i]["b"]) >= 2 for i in bpfail)
+    if name == "BatchOk":
+        return any(e["e"] == "bp" and e["ok"] and e["k"] == "batch" and len(e["b"]) >= 2 for e in ev)
+    if name == "FlushInflight":
+        for f in flush:
+            sent = sum(1 for e in ev[:f] if e["e"] == "sent")
+            done = sum(1 for e in ev[:f] if e["e"] == "done")
+            bp = sum(1 for e in ev[:f] if e["e"] == "bp")
+            if sent > done and bp == 0:
+                return True
+        return False
+    if name == "FlushAfterFail":
+        return bool(bpfail) and bool(flush) and bpfail[0] < flush[0]
+    if name == "ErrRoundAbandoned":
+        # the failure is reported, then a round starts with three counted objects and sends nothing
+        for i in bpfail:
+            rounds = [j for j in idx(lambda e: e["e"] == "round") if j > i]
+            if rounds:
+                nxt = [e["e"] for e in ev[rounds[0] + 1:rounds[0] + 3]]
+                puts = sum(1 for e in ev[:rounds[0]] if e["e"] == "ce" and e["res"] == "ok")
+                if puts >= 3 and "sent" not in nxt:
+                    return True
+        return False
+    if name == "FlushReadOnly":
+        ro = idx(lambda e: e["e"] == "cs" and e["op"] == "setmode" and e["m"] == "ro")
+        return bool(ro) and any(f > ro[0] for f in flush)
+    return True
+
+
 PROBE_CFG = {"H3": "WriteCacheGen_cexH3.cfg", "Alias": "WriteCacheGen_cexAlias.cfg",
              "ErrLeak": "WriteCacheGen_cexErrLeak.cfg", "Split": "WriteCacheGen_cexSplit.cfg",
              "Stale": "WriteCacheGen_cexStale.cfg"}
